@@ -290,7 +290,7 @@ Plan gen(uint64_t seed, const std::string& tier) {
     pl.p["sched_seed"] = r.seed32();
     pl.p["policy"] = sim::POL_OPBOUND;
     pl.p["p_op"] = 0;
-    const bool long_run = big && r.chance(0.02);
+    const bool long_run = big && r.chance(0.01);
     const auto alpha = pick_alphabet(r, long_run ? 40 : int(r.range(3, 8)));
     const int nops = long_run ? 10000 : int(r.range(8, 40));
     for (int i = 0; i < nops; ++i) {
